@@ -164,11 +164,26 @@ def stepLine (st : St) (line : String) : St × List String :=
     | some mo =>
       let st := { st with compared := st.compared + 1, predOut := none }
       if mo = impl then (st, [])
+      else if mo.startsWith "err" || impl.startsWith "err" then diff st "out.err" mo impl
+      else if rest.head? = some "exec" then
+        -- split the fill comparison: who traded how much vs at which price
+        let mask (toks : List String) : String × String :=
+          let body := toks.drop 2
+          let rec go (l : List String) (i : Nat) (a b : List String) : List String × List String :=
+            match l with
+            | [] => (a.reverse, b.reverse)
+            | t :: ts => if i % 7 = 5 then go ts (i + 1) a (t :: b) else go ts (i + 1) (t :: a) b
+          let (a, b) := go body 0 [] []
+          (" ".intercalate a, " ".intercalate b)
+        let (ma, mb) := mask (tokens mo)
+        let (ia, ib) := mask rest
+        let (st1, o1) := if ma = ia then (st, []) else diff st "fill.pairs" ma ia
+        let (st2, o2) := if mb = ib then (st1, []) else diff st1 "fill.price" mb ib
+        (st2, o1 ++ o2)
       else
         let ch := match rest.head? with
-          | some "exec" => "out.fill" | some "add" => "out.order" | some "cancel" => "out.cancel"
-          | some "tick" => "out.expiry" | some "err" => "out.err" | _ => "out"
-        let ch := if mo.startsWith "err" || impl.startsWith "err" then "out.err" else ch
+          | some "add" => "out.order" | some "cancel" => "out.cancel"
+          | some "tick" => "out.expiry" | _ => "out"
         diff st ch mo impl
   | ["P", b] =>
     match st.model with
